@@ -1,454 +1,22 @@
 import N0Verif.Proofs.CompareKeyed
 /-!
-The default comparison is exact under a LOCAL collision hypothesis (C07, sharpening `default_exact_uniq`).
+The hypothesis `KeyFaithful` of the default-comparison theorem (`CompareKeyed.lean`), seen from both sides.
 
-`default_exact_uniq` asks `str()` to be injective on the union of all non-record list items of both trees
-(`NoStrCollision`).  What the proof needs is much less, and one-sided:
-
-* `DtLocalOK b` — in every list of the RIGHT tree, two items with the same key (`str()` of a non-record item,
-  `''` for a record) are both records or identical.  This is exactly the class of finding C07-b (`[1, '1']`,
-  `['', {}]`, `[None, 'None']`); collisions across two lists (`[1]` against `['1']`) are harmless;
-* `DtNestedInj a b` — lists nested directly in lists are keyed by their `str()`, which must determine them
-  (true of `repr` on genuine Python values; the floats of the model are opaque lexemes, `dt_nested_needed_cex`).
-
-`dt_tight` / `dt_tight_rec`: the class is tight — every pair of distinct leaves with the same `str()`, and every
-leaf with `str() == ''` next to a record, produces two lists that are equal up to order and reported different.
+* **It cannot be dropped in the model** (`dt_tight`): for ANY two distinct leaves with the same key the lists
+  `[x, y]` and `[y, x]` are equal up to order and two differences are reported.  With the key
+  `json.dumps(item, sort_keys=True, default=repr)` (fixes C07-b, C07-c) two distinct leaves of genuine Python values
+  never have the same key; in the model they can, because floats are opaque lexemes (`.flt "1"` against `.int 1`).
+* **Not proved here**: `KeyFaithful` itself.  It is a statement about `json.dumps(…, sort_keys=True)` — injective up to
+  the order of dictionary keys: `null`, `true`/`false`, decimal digits, a float lexeme, a quoted string with its
+  escapes, `[…]`, `{…}` with sorted members — which needs a well-formedness predicate on float lexemes and the
+  unambiguity of the JSON grammar; the default-comparison theorem takes it as its one hypothesis and the examples
+  discharge it by `decide` on concrete trees.
 -/
 namespace N0.Compare
 open N0
 
 set_option linter.unusedSimpArgs false
 set_option linter.unusedVariables false
-
-/-! ### the local hypothesis -/
-
-/-- two items of the list with the same key are both records (paired in order) or identical -/
-def DtListLocal (xs : List Val) : Prop :=
-  ∀ x ∈ xs, ∀ y ∈ xs, key0 x = key0 y → (isRec x = true ∧ isRec y = true) ∨ x = y
-
-mutual
-/-- every list of the tree, at every depth, satisfies `DtListLocal` -/
-def DtLocalOK : Val → Prop
-  | .list _ xs => DtListLocal xs ∧ DtLocalOKL xs
-  | .dict _ kvs => DtLocalOKK kvs
-  | _ => True
-def DtLocalOKL : List Val → Prop
-  | [] => True
-  | x :: xs => DtLocalOK x ∧ DtLocalOKL xs
-def DtLocalOKK : List (Str × Val) → Prop
-  | [] => True
-  | (_, v) :: rest => DtLocalOK v ∧ DtLocalOKK rest
-end
-
-def isListV : Val → Bool
-  | .list _ _ => true
-  | _ => false
-
-/-- `str()` determines the lists that are directly nested in lists (both trees) -/
-def DtNestedInj (a b : Val) : Prop :=
-  ∀ x ∈ listItems a ++ listItems b, ∀ y ∈ listItems a ++ listItems b,
-    isListV x = true → isListV y = true → pyStr x = pyStr y → x = y
-
-/-- what the induction carries about an abstract set `S` of non-record list items -/
-structure DtItems (S : Val → Prop) : Prop where
-  inj : ∀ x y, S x → S y → isListV x = true → isListV y = true → pyStr x = pyStr y → x = y
-  refl : ∀ x, S x → eqv x x
-
-theorem dt_localL_mem : ∀ (ys : List Val) (y : Val), DtLocalOKL ys → y ∈ ys → DtLocalOK y
-  | [], _, _, h => by cases h
-  | x :: xs, y, hl, h => by
-    simp only [DtLocalOKL] at hl
-    cases h with
-    | head => exact hl.1
-    | tail _ h' => exact dt_localL_mem xs y hl.2 h'
-
-theorem dt_localK_lookup : ∀ (kvs : List (Str × Val)) (k : Str) (w : Val), DtLocalOKK kvs →
-    Val.lookup k kvs = some w → DtLocalOK w
-  | [], _, _, _, h => by simp [Val.lookup] at h
-  | (k', v) :: rest, k, w, hl, h => by
-    simp only [DtLocalOKK] at hl
-    simp only [Val.lookup] at h
-    split at h
-    · cases h; exact hl.1
-    · exact dt_localK_lookup rest k w hl.2 h
-
-/-- what is known about a remaining entry of the right list `ys` -/
-def DtGood (S : Val → Prop) (ys : List Val) (e : KE) : Prop :=
-  e.1 = key0 e.2.2 ∧ GoodV S e.2.2 ∧ e.2.2 ∈ ys ∧ DtLocalOK e.2.2
-
-theorem dt_not_eqv_of_ne {S : Val → Prop} (hS : DtItems S) {x y : Val} (hrx : isRec x = false)
-    (hsx : S x) (hsy : isRec y = false → S y) (hk : key0 x = key0 y) (hne : x ≠ y) : ¬ eqv x y := by
-  intro he
-  have ht := eqv_tyOf he
-  cases x with
-  | dict c kvs => simp [isRec] at hrx
-  | list c xs =>
-    cases y with
-    | list c' ys =>
-      have hry : isRec (Val.list c' ys) = false := rfl
-      exact hne (hS.inj _ _ hsx (hsy hry) rfl rfl (by simpa [key0] using hk))
-    | _ => simp [tyOf] at ht
-  | none => exact hne ((eqv_leaf _ _ (Or.inr rfl)).1 he)
-  | bool b => exact hne ((eqv_leaf _ _ (Or.inl rfl)).1 he)
-  | int i => exact hne ((eqv_leaf _ _ (Or.inl rfl)).1 he)
-  | flt f => exact hne ((eqv_leaf _ _ (Or.inl rfl)).1 he)
-  | str s => exact hne ((eqv_leaf _ _ (Or.inl rfl)).1 he)
-
-theorem dt_rec_of_tyOf {x y : Val} (ht : tyOf x = tyOf y) (hx : isRec x = true) : isRec y = true := by
-  cases x <;> cases y <;> simp_all [isRec, tyOf]
-
-/-- the pairing step: `x` (left) has found `y`, the first remaining right entry with its key -/
-theorem dt_hit_iff {S : Val → Prop} (hS : DtItems S) {ys : List Val} (hloc : DtListLocal ys)
-    {x y : Val} {xs : List Val} {l1 l2 : List KE} {j : Nat}
-    (hxS : isRec x = false → S x) (hyS : isRec y = false → S y) (hyys : y ∈ ys) (hky : key0 x = key0 y)
-    (hl1 : ∀ e ∈ l1, e.1 ≠ key0 x)
-    (hkey : ∀ e ∈ l1 ++ (key0 x, j, y) :: l2, e.1 = key0 e.2.2)
-    (hin : ∀ e ∈ l1 ++ (key0 x, j, y) :: l2, e.2.2 ∈ ys) :
-    (eqv x y ∧ ListSpec xs (vals (l1 ++ l2))) ↔ ListSpec (x :: xs) (vals (l1 ++ (key0 x, j, y) :: l2)) := by
-  have hval_ys : ∀ z ∈ vals (l1 ++ (key0 x, j, y) :: l2), z ∈ ys := by
-    intro z hz
-    simp only [vals, List.mem_map] at hz
-    obtain ⟨e, he, rfl⟩ := hz
-    exact hin e he
-  cases hrec : isRec x with
-  | true =>
-    have hk0 : key0 y = [] := by rw [← hky, key0_rec hrec]
-    cases hry : isRec y with
-    | true =>
-      rw [key0_rec hrec] at hl1
-      have hn := filter_rec_keys l1 (fun e he => hkey e (by simp [he])) hl1
-      exact (spec_rec_some hrec hry hn).symm
-    | false =>
-      -- a non-record with the key of a record: no record can remain (it would collide with `y` in `ys`)
-      have hne : ¬ eqv x y := by
-        intro he
-        have := dt_rec_of_tyOf (eqv_tyOf he) hrec
-        rw [hry] at this; cases this
-      have hnorec : (vals (l1 ++ (key0 x, j, y) :: l2)).filter isRec = [] := by
-        rw [List.filter_eq_nil_iff]
-        intro z hz hzr
-        have hzys := hval_ys z hz
-        have hkz : key0 z = key0 y := by rw [key0_rec hzr, hk0]
-        rcases hloc z hzys y hyys hkz with ⟨_, hyr⟩ | hzy
-        · rw [hry] at hyr; cases hyr
-        · rw [hzy, hry] at hzr; cases hzr
-      have hnot : ¬ ListSpec (x :: xs) (vals (l1 ++ (key0 x, j, y) :: l2)) := spec_rec_none hrec hnorec
-      constructor
-      · intro hh; exact absurd hh.1 hne
-      · intro hh; exact absurd hh hnot
-  | false =>
-    by_cases hxy : x = y
-    · subst hxy
-      have hxx : eqv x x := hS.refl x (hxS hrec)
-      rw [spec_nonrec_some hrec]
-      simp [hxx]
-    · -- `x` is not an item of `ys` any more (it would collide with `y`), and the pair differs
-      have hne : ¬ eqv x y := dt_not_eqv_of_ne hS hrec (hxS hrec) hyS hky hxy
-      have hnot : ¬ ListSpec (x :: xs) (vals (l1 ++ (key0 x, j, y) :: l2)) := by
-        apply spec_nonrec_none hrec
-        intro hm
-        rcases hloc x (hval_ys x hm) y hyys hky with ⟨hxr, _⟩ | hh
-        · rw [hrec] at hxr; cases hxr
-        · exact hxy hh
-      constructor
-      · intro hh; exact absurd hh.1 hne
-      · intro hh; exact absurd hh hnot
-
-/-! ### the keyed comparison is exact -/
-
-mutual
-theorem dt_sub_exact (cfg : Cfg) (h : NoOpts cfg) (hd : cfg.direct = false) (S : Val → Prop) (hS : DtItems S)
-    (site : Site) (p : Path) (v w : Val) (hv : isN0 v = true) (hw : isN0 w = true)
-    (hiv : ∀ z ∈ listItems v, S z) (hiw : ∀ z ∈ listItems w, S z) (hlw : DtLocalOK w)
-    (ht : tyOf v = tyOf w) (hs : isPyScalar v = false) :
-      ∃ r, sub cfg site p v w = .ok r ∧ (r.diffs = 0 ↔ eqv v w) :=
-  match v, w, hv, hw, hiv, hiw, hlw, ht, hs with
-  | .list c xs, w, hv, hw, hiv, hiw, hlw, ht, _ => by
-    cases w with
-    | list c' ys =>
-      simp only [isN0, Bool.and_eq_true, beq_iff_eq] at hv hw
-      obtain ⟨hc, hxs⟩ := hv
-      obtain ⟨hc', hys⟩ := hw
-      subst hc; subst hc'
-      simp only [listItems] at hiv hiw
-      simp only [DtLocalOK] at hlw
-      have ho : ∀ e ∈ mkEntries 0 (ys.map key0) ys, DtGood S ys e := by
-        intro e he
-        have hm := mkEntries_key0 ys 0 e he
-        have hl := listItemsL_mem ys e.2.2 hm.2
-        exact ⟨hm.1, ⟨isN0L_mem ys _ hys hm.2, fun z hz => hiw z (hl.1 z hz), fun hr => hiw _ (hl.2 hr)⟩, hm.2,
-          dt_localL_mem ys _ hlw.2 hm.2⟩
-      obtain ⟨r, hr, hiff⟩ := dt_keyedWalk_exact cfg h hd S hS p (.list .n0 xs) (.list .n0 ys) ys hlw.1 xs
-        (mkEntries 0 (xs.map key0) xs) (mkEntries 0 (ys.map key0) ys) 0 hxs hiv ho
-      refine ⟨r, ?_, ?_⟩
-      · simp [sub, hd, excluded_noOpts h, keysOf_noOpts h, hr]
-      · rw [hiff (mkEntries_keys0 xs 0), mkEntries_vals0]
-        simp [eqv, ListSpec]
-    | _ => simp [tyOf] at ht
-  | .dict c kvs, w, hv, hw, hiv, hiw, hlw, ht, _ => by
-    cases w with
-    | dict c' kvs' =>
-      simp only [isN0, Bool.and_eq_true, beq_iff_eq] at hv hw
-      obtain ⟨hc, hxs⟩ := hv
-      obtain ⟨hc', hys⟩ := hw
-      subst hc; subst hc'
-      simp only [listItems] at hiv hiw
-      simp only [DtLocalOK] at hlw
-      obtain ⟨r, hr, hiff⟩ := dt_dictWalk_exact cfg h hd S hS p (.dict .n0 kvs) (.dict .n0 kvs') kvs kvs' kvs true
-        hxs hys hiv hiw hlw
-      refine ⟨r, ?_, ?_⟩
-      · simp [sub, hr]
-      · rw [hiff, dictTail_diffs_noOpts h]
-        simp only [eqv, true_and, eqvK_eq_common, List.all_eq_true]
-        exact and_assoc.symm
-    | _ => simp [tyOf] at ht
-  | .none, w, _, _, _, _, _, ht, _ => by
-    cases w <;> simp [tyOf] at ht
-    exact ⟨Res.empty, by simp [sub], by simp [eqv]⟩
-  | .bool _, _, _, _, _, _, _, _, hs => by simp [isPyScalar] at hs
-  | .int _, _, _, _, _, _, _, _, hs => by simp [isPyScalar] at hs
-  | .flt _, _, _, _, _, _, _, _, hs => by simp [isPyScalar] at hs
-  | .str _, _, _, _, _, _, _, _, hs => by simp [isPyScalar] at hs
-termination_by structural v
-
-theorem dt_dictWalk_exact (cfg : Cfg) (h : NoOpts cfg) (hd : cfg.direct = false) (S : Val → Prop) (hS : DtItems S)
-    (p : Path) (sa oa : Val) (skvs okvs : List (Str × Val))
-    (kvs : List (Str × Val)) (still : Bool) (hk : isN0K kvs = true) (ho : isN0K okvs = true)
-    (hik : ∀ z ∈ listItemsK kvs, S z) (hio : ∀ z ∈ listItemsK okvs, S z) (hlo : DtLocalOKK okvs) :
-      ∃ r, dictWalk cfg p sa oa skvs okvs still kvs = .ok r ∧
-        (r.diffs = 0 ↔ (commonP kvs okvs ∧ (dictTail cfg p sa oa skvs okvs true).diffs = 0)) :=
-  match kvs, still, hk, ho, hik, hio with
-  | [], still, _, _, _, _ => by
-    refine ⟨_, by rw [dictWalk], ?_⟩
-    simp [commonP, dictTail]
-  | (k, v) :: rest, still, hk, ho, hik, hio => by
-    simp only [isN0K, Bool.and_eq_true] at hk
-    have hik1 : ∀ z ∈ listItems v, S z := fun z hz => hik z (by simp [listItemsK, hz])
-    have hik2 : ∀ z ∈ listItemsK rest, S z := fun z hz => hik z (by simp [listItemsK, hz])
-    cases hl : Val.lookup k okvs with
-    | none =>
-      obtain ⟨r, hr, hiff⟩ := dt_dictWalk_exact cfg h hd S hS p sa oa skvs okvs rest still hk.2 ho hik2 hio hlo
-      refine ⟨r, by simp [dictWalk, hl, hr], ?_⟩
-      simpa [commonP, hl] using hiff
-    | some w =>
-      have hw := isN0K_lookup okvs k w ho hl
-      have hiw : ∀ z ∈ listItems w, S z := fun z hz => hio z (listItemsK_lookup okvs k w hl z hz)
-      have hlw := dt_localK_lookup okvs k w hlo hl
-      have hce := classifyEntry_exactP h (p ++ [.key k]) v w
-      cases hcl : classifyEntry cfg (p ++ [.key k]) v w with
-      | emit r0 s =>
-        rw [hcl] at hce
-        obtain ⟨r, hr, hiff⟩ := dt_dictWalk_exact cfg h hd S hS p sa oa skvs okvs rest (still && s) hk.2 ho hik2 hio hlo
-        refine ⟨r0 ++ r, by simp [dictWalk, hl, hcl, hr], ?_⟩
-        simp only [ActExactP] at hce
-        simp only [append_diffs, Nat.add_eq_zero_iff, hiff, commonP, hl, hce]
-        exact and_assoc.symm
-      | descend =>
-        rw [hcl] at hce
-        obtain ⟨r1, hr1, hiff1⟩ := dt_sub_exact cfg h hd S hS .entry (p ++ [.key k]) v w hk.1 hw hik1 hiw hlw hce.1 hce.2
-        obtain ⟨r, hr, hiff⟩ := dt_dictWalk_exact cfg h hd S hS p sa oa skvs okvs rest still hk.2 ho hik2 hio hlo
-        refine ⟨r1 ++ r, by simp [dictWalk, hl, hcl, hr1, hr], ?_⟩
-        simp only [append_diffs, Nat.add_eq_zero_iff, hiff, hiff1, commonP, hl]
-        exact and_assoc.symm
-termination_by structural kvs
-
-theorem dt_keyedWalk_exact (cfg : Cfg) (h : NoOpts cfg) (hd : cfg.direct = false) (S : Val → Prop) (hS : DtItems S)
-    (p : Path) (sa oa : Val) (ys : List Val) (hloc : DtListLocal ys) (xs : List Val) (sr orr : List KE) (i : Nat)
-    (hx : isN0L xs = true) (hix : ∀ z ∈ listItemsL xs, S z)
-    (ho : ∀ e ∈ orr, DtGood S ys e) :
-      ∃ r, keyedWalk cfg p sa oa i xs (xs.map key0) sr orr = .ok r ∧
-        (sr.map (fun e => e.1) = xs.map key0 → (r.diffs = 0 ↔ ListSpec xs (vals orr))) :=
-  match xs, sr, orr, i, hx, hix, ho with
-  | [], sr, orr, i, _, _, _ => by
-    refine ⟨keyedTail p sr orr, by simp [keyedWalk], ?_⟩
-    intro hsr
-    simp only [List.map_nil, List.map_eq_nil_iff] at hsr
-    subst hsr
-    rw [spec_nil]
-    simp [keyedTail, vals]
-  | x :: xs, sr, orr, i, hx, hix, ho => by
-    simp only [isN0L, Bool.and_eq_true] at hx
-    have hix1 : ∀ z ∈ listItems x, S z := fun z hz => hix z (by simp [listItemsL, hz])
-    have hix2 : ∀ z ∈ listItemsL xs, S z := fun z hz => hix z (by simp [listItemsL, hz])
-    have hxS : isRec x = false → S x := fun hr => hix x (by simp [listItemsL, hr])
-    have hinv : ∀ l : List KE, (∀ e ∈ l, e ∈ orr) → ∀ e ∈ l, e.1 = key0 e.2.2 := fun l hl e he => (ho e (hl e he)).1
-    cases hf : findKey (key0 x) orr with
-    | none =>
-      obtain ⟨r, hr, _⟩ := dt_keyedWalk_exact cfg h hd S hS p sa oa ys hloc xs sr orr (i + 1) hx.2 hix2 ho
-      refine ⟨r, by simp [keyedWalk, hf, hr], ?_⟩
-      intro hsr
-      have hge := keyedWalk_diffs_ge cfg p sa oa xs _ sr orr (i + 1) r hr
-      have hlen : sr.length = xs.length + 1 := by
-        have := congrArg List.length hsr
-        simpa using this
-      have hne := kfind_none orr _ hf
-      have hnot : ¬ ListSpec (x :: xs) (vals orr) := by
-        cases hrec : isRec x with
-        | true =>
-          rw [key0_rec hrec] at hne
-          exact spec_rec_none hrec (filter_rec_keys orr (fun e he => (ho e he).1) hne)
-        | false =>
-          apply spec_nonrec_none hrec
-          intro hm
-          simp only [vals, List.mem_map] at hm
-          obtain ⟨e, he, hex⟩ := hm
-          exact hne e he (by rw [(ho e he).1, hex])
-      constructor
-      · intro h0; omega
-      · intro hsp; exact absurd hsp hnot
-    | some jy =>
-      obtain ⟨j, y⟩ := jy
-      obtain ⟨l1, l2, horr, hl1, her⟩ := kfind_some orr _ j y hf
-      have hmem : (key0 x, j, y) ∈ orr := by rw [horr]; simp
-      have hgy := ho _ hmem
-      have hy : GoodV S y := hgy.2.1
-      have hky : key0 x = key0 y := hgy.1
-      have hyys : y ∈ ys := hgy.2.2.1
-      have ho' : ∀ e ∈ eraseKey (key0 x) orr, DtGood S ys e := by
-        rw [her]
-        intro e he
-        apply ho
-        rw [horr]
-        simp only [List.mem_append, List.mem_cons] at he ⊢
-        cases he with
-        | inl h1 => exact Or.inl h1
-        | inr h1 => exact Or.inr (Or.inr h1)
-      obtain ⟨r', hr', hiff'⟩ := dt_keyedWalk_exact cfg h hd S hS p sa oa ys hloc xs (eraseKey (key0 x) sr)
-        (eraseKey (key0 x) orr) (i + 1) hx.2 hix2 ho'
-      have hpair : ∃ r1, keyedWalk cfg p sa oa i (x :: xs) ((x :: xs).map key0) sr orr = .ok (r1 ++ r') ∧
-          (r1.diffs = 0 ↔ eqv x y) := by
-        have hce := classifyItem_exactP h p (p ++ [if i = j then PSeg.idx i else PSeg.idx2 i j]) (p ++ [.idx i]) sa oa x y
-        cases hcl : classifyItem cfg p (p ++ [if i = j then PSeg.idx i else PSeg.idx2 i j]) (p ++ [.idx i]) sa oa x y with
-        | emit r0 s =>
-          rw [hcl] at hce
-          exact ⟨r0, by simp [keyedWalk, hf, hcl, hr'], hce⟩
-        | descend =>
-          rw [hcl] at hce
-          obtain ⟨r1, hr1, hiff1⟩ := dt_sub_exact cfg h hd S hS .item
-            (p ++ [if i = j then PSeg.idx i else PSeg.idx2 i j]) x y hx.1 hy.1 hix1 hy.2.1 hgy.2.2.2 hce.1 hce.2
-          exact ⟨r1, by simp [keyedWalk, hf, hcl, hr1, hr'], hiff1⟩
-      obtain ⟨r1, hr1, hiff1⟩ := hpair
-      refine ⟨r1 ++ r', hr1, ?_⟩
-      intro hsr
-      have hiff2 := hiff' (kerase_keys hsr)
-      rw [her] at hiff2
-      rw [append_diffs, Nat.add_eq_zero_iff, hiff1, hiff2, horr]
-      exact dt_hit_iff hS hloc hxS hy.2.2 hyys hky hl1
-        (by rw [← horr]; exact fun e he => (ho e he).1) (by rw [← horr]; exact fun e he => (ho e he).2.2.1)
-termination_by structural xs
-end
-
-/-! ### the entry point -/
-
-/-- **the default comparison is exact under the local hypothesis on the right operand** -/
-theorem dt_default_exact_right (fl : Flags) (a b : Val) (ha : isN0 a = true) (hb : isN0 b = true) (hr : RootPair a b)
-    (hua : uniqKeys a = true) (hub : uniqKeys b = true) (hlb : DtLocalOK b) (hn : DtNestedInj a b) :
-    ∃ r, compareTop (Cfg.default fl false) a b = .ok r ∧ (r.diffs = 0 ↔ eqv a b) := by
-  rw [compareTop_eq_sub _ a b hr]
-  have hS : DtItems (fun z => z ∈ listItems a ++ listItems b) :=
-    ⟨fun x y hx hy => hn x hx y hy, itemsRefl_of_uniq a b hua hub⟩
-  exact dt_sub_exact _ (noOpts_default fl false) rfl _ hS .entry [] a b ha hb
-    (fun z hz => List.mem_append_left _ hz) (fun z hz => List.mem_append_right _ hz) hlb
-    (rootPair_ty hr).1 (rootPair_ty hr).2
-
-/-- the symmetric form: no list of either tree holds two non-identical items with the same key -/
-theorem dt_default_exact (fl : Flags) (a b : Val) (ha : isN0 a = true) (hb : isN0 b = true) (hr : RootPair a b)
-    (hua : uniqKeys a = true) (hub : uniqKeys b = true) (hla : DtLocalOK a) (hlb : DtLocalOK b)
-    (hn : DtNestedInj a b) :
-    ∃ r, compareTop (Cfg.default fl false) a b = .ok r ∧ (r.diffs = 0 ↔ eqv a b) :=
-  dt_default_exact_right fl a b ha hb hr hua hub hlb hn
-
-/-! ### the new hypotheses are weaker than `NoStrCollision` -/
-
-mutual
-theorem dt_local_of_items (S : Val → Prop) (hinj : ∀ x y, S x → S y → pyStr x = pyStr y → x = y)
-    (hne : ∀ x, S x → pyStr x ≠ []) (v : Val) (hi : ∀ z ∈ listItems v, S z) : DtLocalOK v :=
-  match v, hi with
-  | .list c xs, hi => by
-    simp only [listItems] at hi
-    simp only [DtLocalOK]
-    refine ⟨?_, dt_localL_of_items S hinj hne xs hi⟩
-    intro x hx y hy hk
-    cases hrx : isRec x with
-    | true =>
-      cases hry : isRec y with
-      | true => exact Or.inl ⟨rfl, rfl⟩
-      | false =>
-        have hsy := hi y ((listItemsL_mem xs y hy).2 hry)
-        rw [key0_rec hrx, key0_nonrec hry] at hk
-        exact absurd hk.symm (hne y hsy)
-    | false =>
-      have hsx := hi x ((listItemsL_mem xs x hx).2 hrx)
-      cases hry : isRec y with
-      | true =>
-        rw [key0_nonrec hrx, key0_rec hry] at hk
-        exact absurd hk (hne x hsx)
-      | false =>
-        have hsy := hi y ((listItemsL_mem xs y hy).2 hry)
-        rw [key0_nonrec hrx, key0_nonrec hry] at hk
-        exact Or.inr (hinj x y hsx hsy hk)
-  | .dict c kvs, hi => by
-    simp only [listItems] at hi
-    simp only [DtLocalOK]
-    exact dt_localK_of_items S hinj hne kvs hi
-  | .none, _ => by simp [DtLocalOK]
-  | .bool _, _ => by simp [DtLocalOK]
-  | .int _, _ => by simp [DtLocalOK]
-  | .flt _, _ => by simp [DtLocalOK]
-  | .str _, _ => by simp [DtLocalOK]
-termination_by structural v
-
-theorem dt_localL_of_items (S : Val → Prop) (hinj : ∀ x y, S x → S y → pyStr x = pyStr y → x = y)
-    (hne : ∀ x, S x → pyStr x ≠ []) (xs : List Val) (hi : ∀ z ∈ listItemsL xs, S z) : DtLocalOKL xs :=
-  match xs, hi with
-  | [], _ => by simp [DtLocalOKL]
-  | x :: xs, hi => by
-    simp only [DtLocalOKL]
-    exact ⟨dt_local_of_items S hinj hne x (fun z hz => hi z (by simp [listItemsL, hz])),
-      dt_localL_of_items S hinj hne xs (fun z hz => hi z (by simp [listItemsL, hz]))⟩
-termination_by structural xs
-
-theorem dt_localK_of_items (S : Val → Prop) (hinj : ∀ x y, S x → S y → pyStr x = pyStr y → x = y)
-    (hne : ∀ x, S x → pyStr x ≠ []) (kvs : List (Str × Val)) (hi : ∀ z ∈ listItemsK kvs, S z) : DtLocalOKK kvs :=
-  match kvs, hi with
-  | [], _ => by simp [DtLocalOKK]
-  | (k, v) :: rest, hi => by
-    simp only [DtLocalOKK]
-    exact ⟨dt_local_of_items S hinj hne v (fun z hz => hi z (by simp [listItemsK, hz])),
-      dt_localK_of_items S hinj hne rest (fun z hz => hi z (by simp [listItemsK, hz]))⟩
-termination_by structural kvs
-end
-
-/-- `NoStrCollision` implies the new hypotheses, so `dt_default_exact` contains `default_exact_uniq` -/
-theorem dt_of_noStrCollision (a b : Val) (hc : NoStrCollision a b) :
-    DtLocalOK a ∧ DtLocalOK b ∧ DtNestedInj a b := by
-  refine ⟨?_, ?_, ?_⟩
-  · exact dt_local_of_items (fun z => z ∈ listItems a ++ listItems b) (fun x y hx hy => hc.1 x hx y hy) hc.2 a
-      (fun z hz => List.mem_append_left _ hz)
-  · exact dt_local_of_items (fun z => z ∈ listItems a ++ listItems b) (fun x y hx hy => hc.1 x hx y hy) hc.2 b
-      (fun z hz => List.mem_append_right _ hz)
-  · intro x hx y hy _ _ hs
-    exact hc.1 x hx y hy hs
-
-/-- strictly weaker: `{'a': [1, {'k': None}]}` against `{'a': ['1', {'k': None}]}` — a collision ACROSS the two
-lists; `NoStrCollision` fails, the local hypotheses hold (and the theorem gives the right verdict: one line) -/
-def dtExA : Val := .dict .n0 [(['a'], .list .n0 [.int 1, .dict .n0 [(['k'], .none)]])]
-def dtExB : Val := .dict .n0 [(['a'], .list .n0 [.str ['1'], .dict .n0 [(['k'], .none)]])]
-
-theorem dtEx_not_noStrCollision : ¬ NoStrCollision dtExA dtExB := by
-  intro h
-  have := h.1 (.int 1) (by simp [dtExA, dtExB, listItems, listItemsK, listItemsL, isRec])
-    (.str ['1']) (by simp [dtExA, dtExB, listItems, listItemsK, listItemsL, isRec]) (by decide)
-  cases this
-
-theorem dtEx_local : DtLocalOK dtExA ∧ DtLocalOK dtExB ∧ DtNestedInj dtExA dtExB := by
-  refine ⟨?_, ?_, ?_⟩
-  · simp only [dtExA, DtLocalOK, DtLocalOKK, DtLocalOKL, DtListLocal, and_true]
-    decide
-  · simp only [dtExB, DtLocalOK, DtLocalOKK, DtLocalOKL, DtListLocal, and_true]
-    decide
-  · unfold DtNestedInj
-    decide
 
 /-! ### the class is tight -/
 
@@ -503,9 +71,9 @@ theorem dt_two_by_two (fl : Flags) (x y : Val) (hk : key0 x = key0 y)
     simp only [keyedWalk, findKey, eraseKey, hk, if_true, hca, hcb, Nat.zero_add]
   · simp only [append_diffs, hda, hdb, keyedTail, List.length_nil]
 
-/-- **tightness (1).** Any two distinct leaves with the same `str()`: `[x, y]` and `[y, x]` are equal up to
+/-- **tightness.** Any two distinct leaves with the same key: `[x, y]` and `[y, x]` are equal up to
 order, yet the default comparison reports two differences. -/
-theorem dt_tight (fl : Flags) (x y : Val) (hx : DtLeaf x) (hy : DtLeaf y) (hne : x ≠ y) (hs : pyStr x = pyStr y) :
+theorem dt_tight (fl : Flags) (x y : Val) (hx : DtLeaf x) (hy : DtLeaf y) (hne : x ≠ y) (hs : jsonVal x = jsonVal y) :
     (∃ r, compareTop (Cfg.default fl false) (.list .n0 [x, y]) (.list .n0 [y, x]) = .ok r ∧ r.diffs = 2) ∧
       eqv (.list .n0 [x, y]) (.list .n0 [y, x]) := by
   have hrx := dt_leaf_nonrec hx
@@ -516,57 +84,8 @@ theorem dt_tight (fl : Flags) (x y : Val) (hx : DtLeaf x) (hy : DtLeaf y) (hne :
     · intro p pne pdt sa oa; exact dt_classify_leaf_ne h p pne pdt sa oa hx hy hne
     · intro p pne pdt sa oa; exact dt_classify_leaf_ne h p pne pdt sa oa hy hx (fun e => hne e.symm)
   · simp only [eqv, List.filter, hrx, hry, eqvRecs, Bool.not_false, true_and, if_false, Bool.false_eq_true]
-    exact List.Perm.swap _ _ _
-
-/-- **tightness (2).** A leaf whose `str()` is empty next to a record: `[x, R]` and `[R, x]`. -/
-theorem dt_tight_rec (fl : Flags) (x : Val) (c : Cls) (kvs : List (Str × Val)) (hx : DtLeaf x) (hs : pyStr x = [])
-    (hR : eqv (.dict c kvs) (.dict c kvs)) :
-    (∃ r, compareTop (Cfg.default fl false) (.list .n0 [x, .dict c kvs]) (.list .n0 [.dict c kvs, x]) = .ok r ∧
-        r.diffs = 2) ∧
-      eqv (.list .n0 [x, .dict c kvs]) (.list .n0 [.dict c kvs, x]) := by
-  have hrx := dt_leaf_nonrec hx
-  have h := noOpts_default fl false
-  have hty : tyOf x ≠ tyOf (.dict c kvs) := by
-    rcases hx with hx | hx
-    · cases x <;> simp_all [isPyScalar, tyOf]
-    · subst hx; simp [tyOf]
-  constructor
-  · apply dt_two_by_two fl x (.dict c kvs) (by rw [key0_nonrec hrx, hs]; rfl)
-    · intro p pne pdt sa oa; exact dt_classify_ty_ne h p pne pdt sa oa hty
-    · intro p pne pdt sa oa; exact dt_classify_ty_ne h p pne pdt sa oa (fun e => hty e.symm)
-  · have hrd : isRec (Val.dict c kvs) = true := rfl
-    rw [eqv_list]
-    simp only [List.filter, hrx, hrd, eqvRecs, Bool.not_false, Bool.not_true, true_and, if_false, if_true,
-      Bool.false_eq_true, hR, and_self]
-    exact List.Perm.refl _
-
-/-- the nested-list hypothesis cannot simply be dropped IN THE MODEL (floats are opaque lexemes, so a lexeme
-such as `1, 1` makes `repr` ambiguous): the two inner lists `[{'a': [1, 1*, 1]}]` (`1, 1` then `1` / `1` then `1, 1`)
-have the same `str()`, are not identical, are `eqv` to each other and free of local collisions; the comparison
-reports nothing, but the outer lists are not equal up to order under strict equality of their non-record items -/
-def dtNestA : Val := .list .n0 [.list .n0 [.dict .n0 [(['a'], .list .n0 [.flt ['1', ',', ' ', '1'], .flt ['1']])]]]
-def dtNestB : Val := .list .n0 [.list .n0 [.dict .n0 [(['a'], .list .n0 [.flt ['1'], .flt ['1', ',', ' ', '1']])]]]
-
-theorem dt_nested_needed_cex :
-    (compareTop (Cfg.default Flags.init false) dtNestA dtNestB).map Res.diffs = .ok 0 ∧ ¬ eqv dtNestA dtNestB ∧
-      DtLocalOK dtNestA ∧ DtLocalOK dtNestB ∧ isN0 dtNestA = true ∧ isN0 dtNestB = true ∧
-      uniqKeys dtNestA = true ∧ uniqKeys dtNestB = true ∧ ¬ DtNestedInj dtNestA dtNestB := by
-  refine ⟨by decide, ?_, ?_, ?_, by decide, by decide, by decide, by decide, ?_⟩
-  · intro h
-    simp only [dtNestA, dtNestB, eqv, List.filter, isRec, Bool.not_false, true_and] at h
-    have := List.perm_singleton.1 h.2
-    revert this
-    decide
-  · simp only [dtNestA, DtLocalOK, DtLocalOKK, DtLocalOKL, DtListLocal, and_true]
-    decide
-  · simp only [dtNestB, DtLocalOK, DtLocalOKK, DtLocalOKL, DtListLocal, and_true]
-    decide
-  · intro h
-    have := h (.list .n0 [.dict .n0 [(['a'], .list .n0 [.flt ['1', ',', ' ', '1'], .flt ['1']])]])
-      (by simp [dtNestA, dtNestB, listItems, listItemsK, listItemsL, isRec])
-      (.list .n0 [.dict .n0 [(['a'], .list .n0 [.flt ['1'], .flt ['1', ',', ' ', '1']])]])
-      (by simp [dtNestA, dtNestB, listItems, listItemsK, listItemsL, isRec]) rfl rfl (by decide)
-    revert this
-    decide
+    intro z _
+    simp only [List.countP_cons, List.countP_nil]
+    omega
 
 end N0.Compare
